@@ -4,3 +4,25 @@ mod safe_file_creator;
 
 pub use privilege_context::{create_dir_all, create_file, PrivilgedExecutionContext};
 pub use safe_file_creator::SafeFileCreator;
+
+/// Verification hook (compiled only with `--cfg xet_verif`): called between the file-system effects of
+/// SafeFileCreator::close so that a harness can snapshot the directory at every crash point.
+#[cfg(xet_verif)]
+pub mod verif {
+    use std::path::Path;
+    use std::sync::{Arc, RwLock};
+
+    pub type CrashFn = dyn Fn(&str, &Path) + Send + Sync;
+    static HOOK: RwLock<Option<Arc<CrashFn>>> = RwLock::new(None);
+
+    pub fn set_crash_hook(f: Option<Arc<CrashFn>>) {
+        *HOOK.write().unwrap() = f;
+    }
+
+    pub fn crash_point(name: &str, path: &Path) {
+        let f = HOOK.read().unwrap().clone();
+        if let Some(f) = f {
+            f(name, path);
+        }
+    }
+}
